@@ -15,6 +15,7 @@ import os
 import random
 from vlib import Infra
 
+HEAP = "6g"   # the state spaces are small; do not claim the default 24g on a shared machine
 CONSTS = {"HeaderSize": 20, "MagicLen": 4, "MagicCommon": 2, "RotateSize": 52428800}
 
 
@@ -56,17 +57,17 @@ def pick(behs, rnd, limit, want=None):
 
 
 def model_check(ctx, th):
-    mc = ctx.tlc("DiskCacheMC", "DiskCache_mc_big.cfg" if th else "DiskCache_mc.cfg",
+    mc = ctx.tlc("DiskCacheMC", heap=HEAP, cfg="DiskCache_mc_big.cfg" if th else "DiskCache_mc.cfg",
                  timeout=6000 if th else 3000, coverage=th,
                  constants=dict(CONSTS, RotateSize=45, Shards=2, Lens=[0, 3], TearKs="0..23", MaxOps=6 if th else 5))
     ctx.require_model_ok(mc, "DiskCache invariants")
     if th:
-        mc1 = ctx.tlc("DiskCacheMC", "DiskCache_mc_one.cfg", timeout=6000, name="one shard, deeper",
+        mc1 = ctx.tlc("DiskCacheMC", heap=HEAP, cfg="DiskCache_mc_one.cfg", timeout=6000, name="one shard, deeper",
                       constants=dict(CONSTS, RotateSize=45, Shards=1, Lens=[0, 1, 3], MaxPuts=4, MaxOps=6, MaxRestarts=3))
         ctx.require_model_ok(mc1, "DiskCache invariants (one shard, deeper)")
     ctx.ev.set("exhaustive", True)
     # 2. vacuity: the reader as it was found (half-erased magic not skipped) must break the property
-    bad = ctx.tlc("DiskCacheMC", "DiskCache_defect.cfg", timeout=1800, name="HalfIsDeleted=FALSE (reader as found)",
+    bad = ctx.tlc("DiskCacheMC", heap=HEAP, cfg="DiskCache_defect.cfg", timeout=1800, name="HalfIsDeleted=FALSE (reader as found)",
                   expect_violation=True, record=False)
     if bad.violated not in ("invariant:RereadExact", "invariant:TailOrder"):
         raise Infra("vacuity check failed: the specification of the unrepaired reader satisfies the property (%s)" % bad.violated)
@@ -81,14 +82,14 @@ def run(ctx):
     if not os.environ.get("VERIF_SELFTEST"):
         model_check(ctx, th)
     # 3. behaviours for the driver
-    beh = ctx.tlc("DiskCacheMC", "DiskCache_beh_big.cfg" if th else "DiskCache_beh.cfg",
+    beh = ctx.tlc("DiskCacheMC", heap=HEAP, cfg="DiskCache_beh.cfg",
                   timeout=3000, name="behaviour export (2 shards)")
     ctx.require_model_ok(beh, "behaviour export")
     take = pick(beh.behaviours, rnd, 20000 if th else 2500)
     if not take:
         raise Infra("no behaviours exported")
     replay(ctx, take, "tlc_behaviours")
-    sim = ctx.tlc("DiskCacheMC", "DiskCache_sim.cfg", simulate=(80 if th else 12, 51), timeout=1800,
+    sim = ctx.tlc("DiskCacheMC", heap=HEAP, cfg="DiskCache_sim.cfg", simulate=(80 if th else 12, 51), timeout=1800,
                   name="simulated long behaviours (3 shards)")
     ctx.require_model_ok(sim, "simulation export")
     # the export prints every candidate last step of a trace: keep two per trace
@@ -105,7 +106,7 @@ def run(ctx):
         raise Infra("simulation exported nothing")
     replay(ctx, simb, "simulated_long")
     # 4. real rotation threshold: 17 MiB bodies, the third put rotates the file
-    rot = ctx.tlc("DiskCacheMC", "DiskCache_rot.cfg", timeout=1800, name="behaviour export (17 MiB bodies)")
+    rot = ctx.tlc("DiskCacheMC", heap=HEAP, cfg="DiskCache_rot.cfg", timeout=1800, name="behaviour export (17 MiB bodies)")
     ctx.require_model_ok(rot, "rotation export")
     def rotates(b):
         return sum(1 for s in b if s["a"] == "Put") >= 3
